@@ -8,7 +8,8 @@ import partial
 import terms
 from terms import subst, subterms
 
-STRINGY_CALLS = ("to_string", "as_str", "to_owned", "clone", "into", "format", "must_use", "from", "as_ref", "deref", "borrow")
+STRINGY_CALLS = ("to_string", "as_str", "to_owned", "clone", "into", "format", "must_use", "from", "as_ref", "deref", "borrow", "as_bytes", "into_bytes",
+                 "into_boxed_str", "into_string")
 
 
 def flatten_pieces(t, nz, memo):
@@ -33,6 +34,8 @@ def flatten_pieces(t, nz, memo):
         return out
     if t[0] == "lit" and isinstance(t[1], str):
         return [t[1]]
+    if t[0] == "lit" and isinstance(t[1], (bytes, bytearray)):
+        return [bytes(t[1]).decode("utf-8", "replace")]            # a byte-string literal written to a text entry
     if t[0] == "call" and isinstance(t[1], str) and t[1].rsplit("::", 1)[-1] == "new" and not t[2] and "String" in t[1]:
         return [""]
     if t[0] == "call" and isinstance(t[1], str) and t[1].rsplit("::", 1)[-1] == "default" and not t[2]:
@@ -43,6 +46,31 @@ def flatten_pieces(t, nz, memo):
             return [""]
         if x[0] == "ctor" and str(x[1]).rsplit("::", 1)[-1] == "Some" and x[2]:
             return flatten_pieces(x[2][0], nz, memo)
+    if t[0] == "call" and isinstance(t[1], str) and t[1].rsplit("::", 1)[-1] == "with_capacity" and "String" in t[1]:
+        return [""]               # an empty string, whatever capacity is reserved
+    if t[0] == "mut" and t[2][0] == "call" and isinstance(t[2][1], str):
+        # a string under construction: what was there, followed by what is appended
+        op, a = t[2][1].rsplit("::", 1)[-1], t[2][2]
+        if op in ("push", "push_str", "write_str", "write_char", "write_fmt") and len(a) == 1:
+            return flatten_pieces(t[1], nz, memo) + flatten_pieces(a[0], nz, memo)
+        if op == "extend" and len(a) == 1:
+            x = nz(partial.simplify(a[0], memo))
+            while x[0] == "call" and isinstance(x[1], str) and x[1].rsplit("::", 1)[-1] in ("iter", "into_iter", "copied", "cloned") and len(x[2]) == 1:
+                x = x[2][0]
+            if x[0] in ("array", "vec") and all(y[0] == "lit" and isinstance(y[1], str) for y in x[1]):
+                return flatten_pieces(t[1], nz, memo) + ["".join(y[1] for y in x[1])]
+            return flatten_pieces(t[1], nz, memo) + [("arg", x, "display")]
+    if t[0] == "call" and isinstance(t[1], str) and t[1].rsplit("::", 1)[-1] in ("concat", "join") and t[2] and t[2][0][0] in ("array", "vec"):
+        # [a, b, c].concat() / [a, b, c].join(sep): the pieces of the elements in order (with the separator in between)
+        op = t[1].rsplit("::", 1)[-1]
+        if (op == "concat" and len(t[2]) == 1) or (op == "join" and len(t[2]) == 2):
+            sep = flatten_pieces(t[2][1], nz, memo) if op == "join" else []
+            out = []
+            for i, el in enumerate(t[2][0][1]):
+                if i and sep:
+                    out += sep
+                out += flatten_pieces(el, nz, memo)
+            return out
     if t[0] == "ite" and t[1] in (("lit", True), ("lit", False)):
         return flatten_pieces(t[2] if t[1][1] else t[3], nz, memo)
     if t[0] == "bin" and t[1] == "+":
@@ -82,7 +110,9 @@ def printed(prog, type_suffix, value, engine=None):
     fn = display_impl(prog, type_suffix)
     if fn is None:
         return None
-    eng = engine or terms.Engine(prog, inline=True, hooks=E.Hooks([fn.path.rsplit("::", 2)[0].lstrip("<")]))
+    # helpers of the type's own module (a `symbol()` method, a shared writer) are inlined
+    module = fn.path.lstrip("<").split(" as ", 1)[0].rsplit("::", 1)[0] + "::"
+    eng = engine or terms.Engine(prog, inline=True, hooks=E.Hooks([module]))
     # online partial evaluation for the concrete value: only the writes that are executed for it remain
     self_name = fn.param_names()[0]
     try:
@@ -95,12 +125,13 @@ def printed(prog, type_suffix, value, engine=None):
         out = []
         decided = True
         for st in sp.all_sites():
-            if st.kind != "mcall" or st.name not in ("write_fmt", "write_str", "write_char", "pad"):
+            dbg = debug_delegation(st)
+            if dbg is None and (st.kind != "mcall" or st.name not in ("write_fmt", "write_str", "write_char", "pad")):
                 continue
             if any(c[0] in ("if", "match") and not (len(c) > 4 and c[4] == "try") for c in st.pc):
                 decided = False          # a write that still depends on a condition
                 break
-            out += flatten_pieces(st.args[1], nz, memo)
+            out += [dbg] if dbg is not None else flatten_pieces(st.args[1], nz, memo)
         if decided and out:
             return merge(out)
     s = eng.summary(fn)
@@ -123,6 +154,18 @@ def printed(prog, type_suffix, value, engine=None):
         arg = subst(st.args[1], mapping)
         out += flatten_pieces(arg, nz, memo)
     return merge(out)
+
+
+def debug_delegation(st):
+    """`fmt::Debug::fmt(self, f)` inside a Display impl, for a field-less variant: the derived Debug writes the variant's name."""
+    if st.kind in ("call", "mcall") and isinstance(st.callee, str) and st.callee.endswith("Debug::fmt") and len(st.args or ()) == 2:
+        v = st.args[0]
+        while v[0] == "call" and isinstance(v[1], str) and v[1].rsplit("::", 1)[-1] in ("clone", "deref", "borrow") and len(v[2]) == 1:
+            v = v[2][0]
+        inst = str(getattr(st, "inst", "") or "")
+        if v[0] == "ctor" and not v[2] and isinstance(v[1], str) and (not inst or "Debug" in inst):
+            return v[1].rsplit("::", 1)[-1]
+    return None
 
 
 def shape(pieces):
